@@ -1,5 +1,6 @@
 import Driver.Util
 import MpcVerif.Model.Sha2pc
+import Std.Data.HashMap
 
 /-!
 Line-protocol driver of property C18 (model side of the correspondence).
@@ -101,19 +102,46 @@ def p521 : NistParams :=
 def nistOf (name : String) : Option NistParams :=
   [p224, p256, p384, p521].find? (·.name == name)
 
-/-- `elliptic.UnmarshalCompressed` for y² = x³ − 3x + b over GF(p). -/
-def decompressNist (P : NistParams) (x : Nat) (odd : Bool) : Option Nat :=
+def rhsNist (P : NistParams) (x : Nat) : Nat := (x * x % P.p * x + (P.p - 3) * x + P.b) % P.p
+
+/-- Some square root of x³ − 3x + b, `none` when there is none. -/
+def rootNist (P : NistParams) (x : Nat) : Option Nat :=
+  let rhs := rhsNist P x
+  match sqrtMod rhs P.p with
+  | none => none
+  | some y => if y * y % P.p ≠ rhs then none else some y
+
+abbrev RootCache := Std.HashMap (String × Nat) (Option Nat)
+
+/-- `elliptic.UnmarshalCompressed` for y² = x³ − 3x + b over GF(p).  The cache
+only memoises `rootNist` (the same abscissas recur in every mutation of one
+payload); a miss is computed. -/
+def decompressNist (cache : RootCache) (P : NistParams) (x : Nat) (odd : Bool) : Option Nat :=
   if P.p ≤ x then none
   else
-    let rhs := (x * x % P.p * x + (P.p - 3) * x + P.b) % P.p
-    match sqrtMod rhs P.p with
+    let root := match cache.get? (P.name, x) with
+      | some r => r
+      | none => rootNist P x
+    match root with
     | none => none
-    | some y =>
-      if y * y % P.p ≠ rhs then none
-      else if y.testBit 0 == odd then some y else some ((P.p - y) % P.p)
+    | some y => if y.testBit 0 == odd then some y else some ((P.p - y) % P.p)
 
-def curveOf (P : NistParams) : Curve :=
-  { name := P.name.toUTF8.toList, byteLen := P.byteLen, decompress := decompressNist P }
+def curveOf (cache : RootCache) (P : NistParams) : Curve :=
+  { name := P.name.toUTF8.toList, byteLen := P.byteLen, decompress := decompressNist cache P }
+
+/-- Fill the cache with the abscissas a round-2 payload of this length would
+carry (pure optimisation). -/
+def prescan (cache : RootCache) (P : NistParams) (input : ByteArray) : RootCache := Id.run do
+  let need := 256 * P.byteLen + 32
+  if input.size < need then return cache
+  let start := input.size - need
+  let mut c := cache
+  for i in [0:256] do
+    let xb := input.extract (start + i * P.byteLen) (start + (i + 1) * P.byteLen)
+    let x := beNat xb.toList
+    if x < P.p ∧ !c.contains (P.name, x) then
+      c := c.insert (P.name, x) (rootNist P x)
+  return c
 
 /-! ### helpers -/
 
@@ -226,6 +254,7 @@ structure State where
   slots : List (String × ByteArray) := []
   counts : List Nat := []
   circ : Option Circuit := none
+  roots : RootCache := {}
 
 def State.slot (st : State) (name : String) : Option ByteArray :=
   (st.slots.find? (·.1 == name)).map (·.2)
@@ -274,7 +303,9 @@ def handle (st : State) (cmd : String) (args : List String) : State × String :=
       | some input =>
         if tagOf input != tag then (st, "bad-mut " ++ tagOf input)
         else
-          let c := curveOf P
+          let roots := if kind == "R2" then prescan st.roots P input else st.roots
+          let st := { st with roots := roots }
+          let c := curveOf roots P
           let data := input.toList
           let res :=
             match kind with
@@ -289,7 +320,7 @@ def handle (st : State) (cmd : String) (args : List String) : State × String :=
   | "encR1", [curve, sid, cn, ax, ay] =>
     match nistOf curve, sid.toNat?, hexArg cn, natOfHex ax, natOfHex ay with
     | some P, some sid, some cn, some ax, some ay =>
-      match encodeRound1 (curveOf P) { sid := sid, curveName := cn.toList, ax := ax, ay := ay } with
+      match encodeRound1 (curveOf {} P) { sid := sid, curveName := cn.toList, ax := ax, ay := ay } with
       | .ok b => (st, "ok " ++ bytesHex b)
       | .error => (st, "err")
       | .panic => (st, "panic")
@@ -297,7 +328,7 @@ def handle (st : State) (cmd : String) (args : List String) : State × String :=
   | "encGS", [curve, sid, cn, sc, ax, ay, ix, iy] =>
     match nistOf curve, sid.toNat?, hexArg cn, natOfHex sc, natOfHex ax, natOfHex ay, natOfHex ix, natOfHex iy with
     | some P, some sid, some cn, some sc, some ax, some ay, some ix, some iy =>
-      match encodeGarblerSession (curveOf P)
+      match encodeGarblerSession (curveOf {} P)
           { sid := sid, curveName := cn.toList, scalar := sc, ax := ax, ay := ay, ainvx := ix, ainvy := iy } with
       | .ok b => (st, "ok " ++ bytesHex b)
       | .error => (st, "err")
